@@ -1,5 +1,6 @@
 // Engine `casts` (C20): opaque round trips and the three sandbox casts.
 //   opq <ty> <v>                      -> ok same=<0|1> val=<v>
+//   scaste <to> <wrap>:<e64|eu32|es8> <v>  -> ok <value>   sandbox_static_cast<to>(wrapped enum with that underlying type)
 //   scast <to> <wrap>:<from> <v>      -> ok <value>        sandbox_static_cast<to>(wrapped from)
 //   rcast <wrap> <srcty> <dstty> <off|null>  -> ok <addr>  sandbox_reinterpret_cast between pointer types
 //   ccast <wrap> <off|null>           -> ok <addr>          sandbox_const_cast<int*>(const int*)
@@ -43,6 +44,37 @@ template<typename To, typename Fr, bool VOL> static std::string scast(i128 v)
     return "ok " + to_dec(as_math(r.UNSAFE_unverified()));
   }
 }
+// --- enum sources (C20: "enum <-> integer"): the cast is the plain static_cast on the underlying value ---
+enum class VE64 : unsigned long long { Z = 0 };
+enum VEU32 : unsigned int { VEU32_Z = 0 };
+enum class VES8 : signed char { Z = 0 };
+template<typename To, typename En, bool VOL> static std::string scast_enum(i128 v)
+{
+  using U = std::underlying_type_t<En>;
+  if (!representable<U>(v)) return "badinput";
+  if (g_sb.get_sandbox_impl()->brk > (1u << 15)) g_sb.get_sandbox_impl()->brk = 16;
+  if constexpr (VOL) {
+    auto p = g_sb.malloc_in_sandbox<En>(); *p = (En)(U)v;
+    auto r = rlbox::sandbox_static_cast<To>(*p);
+    static_assert(std::is_same_v<decltype(r), tainted<To, SbxA>>);
+    return "ok " + to_dec(as_math(r.UNSAFE_unverified()));
+  } else {
+    tainted<En, SbxA> x = (En)(U)v;
+    auto r = rlbox::sandbox_static_cast<To>(x);
+    static_assert(std::is_same_v<decltype(r), tainted<To, SbxA>>);
+    return "ok " + to_dec(as_math(r.UNSAFE_unverified()));
+  }
+}
+typedef std::string (*sce_fn)(i128);
+static sce_fn g_sce[NT][3][2];
+template<size_t I> static void fill_sce_row()
+{
+  using To = nth_t<I, Types>;
+  g_sce[I][0][0] = &scast_enum<To, VE64, false>; g_sce[I][0][1] = &scast_enum<To, VE64, true>;
+  g_sce[I][1][0] = &scast_enum<To, VEU32, false>; g_sce[I][1][1] = &scast_enum<To, VEU32, true>;
+  g_sce[I][2][0] = &scast_enum<To, VES8, false>; g_sce[I][2][1] = &scast_enum<To, VES8, true>;
+}
+template<size_t... I> static void fill_sce(std::index_sequence<I...>) { (fill_sce_row<I>(), ...); }
 // --- casts that involve a floating-point type: values travel as exact dyadic rationals  m * 2^e  (m odd) ---
 using FTypes = TL<float, double, long double>;
 static const char* const FNames[] = { "float", "double", "ldouble" };
@@ -239,6 +271,13 @@ int main()
         }
         int i = ty(t[1]); if (i < 0) return "badop";
         return g_opq[i](parse_dec(t[2]));
+      }
+      if (t[0] == "scaste" && t.size() == 4) {
+        static bool filled = (fill_sce(std::make_index_sequence<NT>{}), true); (void)filled;
+        auto c = t[2].find(':'); int to = ty(t[1]); bool vol = t[2].substr(0, c) == "tvol"; const std::string en = t[2].substr(c + 1);
+        int e = en == "e64" ? 0 : en == "eu32" ? 1 : en == "es8" ? 2 : -1;
+        if (to < 0 || e < 0) return "badop";
+        return g_sce[to][e][vol ? 1 : 0](parse_dec(t[3]));
       }
       if (t[0] == "scast" && t.size() == 4) {
         auto c = t[2].find(':'); int to = ty(t[1]), fr = ty(t[2].substr(c + 1)); bool vol = t[2].substr(0, c) == "tvol";
